@@ -400,7 +400,10 @@ def r4_alphabet(ctx):
     r1b_encode_structure(ctx)
 
 
-from .c02 import r6_field_table as _column_count            # a line with another column count makes the start/end table ragged: reshape(-1, n) raises
+def _column_count(ctx):
+    from .c02 import r6_field_table             # a line with another column count makes the start/end table ragged: reshape(-1, n) raises; invalid digits surface in the digit matrix
+    with ctx.only("DelimitedBuffer.from_raw_buffer", "_get_n_fields", "_get_buffer_extractor", "move_intervals_to_digit_array", "str_to_int"):
+        r6_field_table(ctx)
 from .c18 import r5_missing_shortcut as _missing_shortcut   # a junk value in an optional numeric column reaches the parser
 
 from ..through_time import make_rule as _mk_tt
